@@ -29,7 +29,10 @@ RULE = ("start object of one of the 20 container classes (Instance, 4 ballot cla
         "a second operand of the same class with other attributes, then 1..6 operations from the public set/list/dict/"
         "Counter API of its base type: operators with an object or a bare builtin on either side, in-place operators, "
         "named set methods, slicing, *, copy(), copy.copy, deepcopy, pickle round trip, construction from the object, "
-        "as_multiprofile, and the mutators append/insert/extend/+=/item and slice assignment/setdefault/update with "
+        "as_multiprofile, construction of every OTHER class of the family that accepts the object (all 44 accepted ballot class "
+        "pairs incl. frozen<->mutable and cross-kind, the 8 list profile <-> multiprofile pairs; each pair enumerated at the head of "
+        "every run), construction from the bare builtin copy, satisfaction profiles of profiles, remove_satisfied, "
+        "attribute-neutral builtin mutators and clear for every class, and the mutators append/insert/extend/+=/item and slice assignment/setdefault/update with "
         "right-typed, sub-typed, wrong-typed, frozen-vs-mutable and non-ballot elements; construction from the object "
         "with an explicit ballot_validation flag (off->on, on->off) from unvalidated profiles that already hold "
         "foreign ballots; the linked Instance has 0/1/3 projects at creation and is emptied / refilled in place "
@@ -110,13 +113,34 @@ MUTATORS = {"Instance": ["add", "discard", "update"], "ApprovalBallot": ["add", 
             "SatisfactionMultiProfile": ["append", "update", "__setitem__"]}
 
 
+def xctor_targets(c):
+    """classes of the same family whose constructor accepts an object of class c (what HEAD accepts; see the model)"""
+    t = X.TAG[c]
+    if 2 <= t <= 9:
+        maplike = t in (3, 4, 5, 7, 8)
+        return [u for u in range(2, 10) if u != t and (maplike or u not in (3, 4, 7, 8))]
+    if 10 <= t <= 13:
+        return [t + 4]
+    if 14 <= t <= 17:
+        return [t - 4]
+    # not generated (decided with the coordinator): cross-KIND profile construction and SatisfactionProfile(sat
+    # multiprofile) are outside "construction from another object of its own class" -- HEAD inherits the foreign
+    # ballot_type / drops limits resp. drops instance and sat_class there
+    return []
+
+
 def gen_op(rng, c, n):
     """one random operation for class c; n = current rough payload length"""
     b = base_of(c)
     r = rng.random()
     arg = rng.choice(["obj", "plain"])
-    if r < 0.28:
+    if r < 0.24:
         return rng.choice(COPY_OPS)
+    if r < (0.36 if 2 <= X.TAG[c] <= 9 else 0.28):
+        x = xctor_targets(c)
+        if x and rng.random() < 0.75:
+            return ["xctor", rng.choice(x)]
+        return ["from_plain"]
     if is_prof(c):
         if r < 0.38:
             # construction from the object with an explicit validation flag (off->on and on->off transitions)
@@ -209,7 +233,23 @@ def gen_payload(rng, c, attrs):
     return out
 
 
+# every (source class, target class) pair of family-internal construction, enumerated at the head of every run
+XPAIRS = [(src, tgt) for src in X.CLASSES[2:18] for tgt in xctor_targets(src)]
+
+
 def gen(rng, i, tier):
+    if i < len(XPAIRS):
+        src, tgt = XPAIRS[i]
+        attrs = [rng.randrange(1, NPOOL[a] + 1) for a in X.ATTRS[src]]
+        start = {"cls": src, "attrs": attrs, "other_attrs": gen_attrs(rng, src), "empty": False, "other_empty": False}
+        if is_prof(src):
+            attrs[1] = rng.choice([0, 1])
+            attrs[2] = rng.choice([0, 1])
+            start["payload"] = [] if "Multi" not in src and rng.random() < 0.7 else gen_payload(rng, src, attrs)
+            start["other_payload"] = gen_payload(rng, src, start["other_attrs"])
+        ops = [["xctor", tgt]] + [gen_op(rng, src, 2) for _ in range(rng.choice([0, 1, 2]))] + [["xctor", tgt]]
+        return {"inst_attrs": [rng.choice([1, 2])] + gen_attrs(rng, "Instance")[1:], "inst_nproj": rng.choice([0, 3]),
+                "start": start, "ops": ops}
     c = rng.choice(WEIGHTED)
     start = {"cls": c, "attrs": gen_attrs(rng, c), "other_attrs": gen_attrs(rng, c)}
     n = 2
@@ -297,6 +337,10 @@ def coq_op(op):
         return "OUpdateMap %s" % lst([pair(core.nat(e), _z(k)) for e, k in a])
     if n == "as_multiprofile":
         return "OAsMulti"
+    if n == "xctor":
+        return "OXCtor %s" % N(a)
+    if n == "from_plain":
+        return "OFromPlain"
     if n == "ctor_val":
         return "OCtorVal %s" % boolc(bool(a))
     if n == "as_sat":
